@@ -220,7 +220,7 @@ func runC09(c *mon.Ctx) {
 func runC09Sources(c *mon.Ctx) {
 	// (0) several large payloads in one file, in growing, shrinking and mixed order (a buffer kept from one
 	// payload to the next has room to spare for a smaller one): a few fragmentations each
-	bigPairs := [][]int{{100_000, 70_000}, {70_000, 100_000}, {70_000, 200, 65_600}, {65_536, 65_536}, {300_000, 65_537, 70_000}, {5000, 4097}, {20_000, 4100, 16_384}}
+	bigPairs := [][]int{{100_000, 70_000}, {70_000, 100_000}, {70_000, 200, 65_600}, {65_536, 65_536}, {300_000, 65_537, 70_000}, {5000, 4097}, {20_000, 4100, 16_384}, {1<<20 + 5000}, {1<<20 + 1, 2<<20 + 300}, {1 << 20, 1<<20 + 511, 1<<20 + 512}}
 	c.Each("several-big-payloads", int64(len(bigPairs)), func(i int64, r *mon.Rand) {
 		var tr []ref.EncEv
 		for k, n := range bigPairs[i] {
@@ -244,6 +244,9 @@ func runC09Sources(c *mon.Ctx) {
 			"half reads":            func() io.Reader { return iotest.HalfReader(bytes.NewReader(b)) },
 			"data with EOF":         func() io.Reader { return iotest.DataErrReader(bytes.NewReader(b)) },
 			"bufio 4096":            func() io.Reader { return bufio.NewReaderSize(bytes.NewReader(b), 4096) },
+			"records of 300": func() io.Reader {
+				return &fragReader{chunkReader: chunkReader{b: b, chunks: r.Partition(len(b), 300)}}
+			},
 			"records of 1000": func() io.Reader {
 				return &fragReader{chunkReader: chunkReader{b: b, chunks: r.Partition(len(b), 1000)}}
 			},
@@ -265,6 +268,28 @@ func runC09Sources(c *mon.Ctx) {
 			}
 			if d := ref.EqualFiles(truth, fromLib(got)); d != "" {
 				c.Violation("value:several-big", fmt.Sprintf("valid file with payloads of %v bytes read through %s: %s", bigPairs[i], name, d), in, nil, nil)
+			}
+		}
+		// one single split point inside the last 600 bytes of a payload of a MiB and more (growth strategies change there)
+		if bigPairs[i][0] >= 1<<20 {
+			end := bytes.Index(b, []byte{0x01, 0x90, 0x00, 0x01}) // the note behind the first payload
+			for cut := end - 600; end > 700 && cut <= end+2; cut += 1 + int(i)%2 {
+				var got *smf.SMF
+				var err error
+				src := &fragReader{chunkReader: chunkReader{b: b, chunks: []int{cut, len(b) - cut}}}
+				if c.Guard("panic:several-big", in, func() { got, err = smf.ReadFrom(src) }) {
+					break
+				}
+				c.Count("single_splits_near_the_end_of_a_payload_over_1MiB", 1)
+				c.Eval(1)
+				if err != nil {
+					c.Violation("kind:several-big", fmt.Sprintf("valid file with payloads of %v bytes, source delivers it in two pieces cut at byte %d (%d bytes before the end of the first payload): %v", bigPairs[i], cut, end-cut, err), in, "ok", err.Error())
+					break
+				}
+				if d := ref.EqualFiles(truth, fromLib(got)); d != "" {
+					c.Violation("value:several-big", fmt.Sprintf("valid file with payloads of %v bytes, source delivers it in two pieces cut at byte %d (%d bytes before the end of the first payload): %s", bigPairs[i], cut, end-cut, d), in, nil, nil)
+					break
+				}
 			}
 		}
 		c.DistinctBytes([]byte(fmt.Sprint("several-big", bigPairs[i])))
